@@ -1,7 +1,7 @@
 // VU-codec (C02, C03): the header-value codecs of member types — the generated string-enum encoders/decoders of ops/generated.rs
 // (with the enum types and their `From` conversions from dto/generated.rs), the String / i32 / i64 codecs of http/ser.rs and
 // http/de.rs, and ContentType's pair (dto/content_type.rs) — against a HeaderValue viewed as its text.
-#![allow(dead_code, unused)]
+#![allow(dead_code, unused, non_upper_case_globals)]
 use vstd::prelude::*;
 verus! {
 
@@ -82,6 +82,51 @@ pub mod ser {
         type Error = ParseHeaderError;
 //@@ extract dec_String file=crates/s3s/src/http/de.rs item="impl TryFromHeaderValue for String/fn try_from_header_value" rewrites=attr,ret
     }
+}
+
+// ---- http/ser.rs: add_opt_header / add_opt_header_timestamp (the helpers VU-wire uses as shims) ------------------------------
+pub mod ser_helpers {
+    use vstd::prelude::*;
+    use crate::http::{HeaderValue, InvalidHeaderValue};
+    pub struct S3Error { pub o: u64 }
+    impl S3Error {
+        #[verifier::external_body]
+        pub fn internal_error<E>(e: E) -> (r: S3Error) { unimplemented!() }
+    }
+    pub type S3Result<T = (), E = S3Error> = core::result::Result<T, E>;
+    /// hyper::header::IntoHeaderName: anything that names a header (its lower-case text)
+    pub trait IntoHeaderName { spec fn text(&self) -> Seq<char>; }
+    /// hyper's HeaderMap: `insert` sets the (only) value of a name
+    pub struct HeaderMap { pub o: u64 }
+    impl HeaderMap {
+        pub uninterp spec fn view(&self) -> Map<Seq<char>, HeaderValue>;
+        #[verifier::external_body]
+        pub fn insert<N: IntoHeaderName>(&mut self, name: N, val: HeaderValue) -> (r: Option<HeaderValue>)
+            ensures final(self)@ == old(self)@.insert(name.text(), val)
+        { unimplemented!() }
+    }
+    pub struct Body { pub o: u64 }
+    pub struct Response { pub status: u16, pub headers: HeaderMap, pub body: Body }
+    /// http::TryIntoHeaderValue with its encoder named as a function of the value
+    pub trait TryIntoHeaderValue: Sized {
+        type Error;
+        spec fn spec_encode(self) -> Result<HeaderValue, Self::Error>;
+        fn try_into_header_value(self) -> (r: Result<HeaderValue, Self::Error>)
+            ensures r == self.spec_encode();
+    }
+    pub struct Timestamp { pub o: u64 }
+//@@ extract T_TimestampFormat file=crates/s3s/src/dto/timestamp.rs item="enum TimestampFormat" rewrites=attr
+    pub struct FmtTimestampError { pub o: u64 }
+    /// utils::format::fmt_timestamp(value, fmt, HeaderValue::from_bytes): the header value holding the timestamp's text in that format
+    pub uninterp spec fn spec_fmt_timestamp(v: Timestamp, fmt: TimestampFormat) -> Result<HeaderValue, FmtTimestampError>;
+    pub struct FromBytesFn;
+    impl HeaderValue { pub const from_bytes: FromBytesFn = FromBytesFn; }
+    #[verifier::external_body]
+    pub fn fmt_timestamp(v: &Timestamp, fmt: TimestampFormat, f: FromBytesFn) -> (r: Result<HeaderValue, FmtTimestampError>)
+        ensures r == spec_fmt_timestamp(*v, fmt)
+    { unimplemented!() }
+//@@ extract add_opt_header file=crates/s3s/src/http/ser.rs item="fn add_opt_header" rewrites=attr,ret,etactor,dropwhere
+//@@ extract add_opt_header_timestamp file=crates/s3s/src/http/ser.rs item="fn add_opt_header_timestamp" rewrites=attr,ret,etactor
 }
 
 // ---- dto/content_type.rs ----------------------------------------------------------------------------------------------------
